@@ -454,6 +454,8 @@ class Inst:
         self.start_step = 1
         self.shadow = []             # contexts of RunningShows this instance replaced by an identical request
         self.dup_start = 0           # replaced sync-waiters that may still run the start step at the start instant
+        self.shadow_rs = []          # the replaced RunningShow objects (did one of them really run its start step?)
+        self.dup_used = 0
         self.start_t = None
         self.start_label = None
         self.tick_fades = []         # (light, fade seconds) of the step executed last
@@ -703,8 +705,12 @@ def execute(ctx, plan):     # noqa: C901  (one scenario, kept in one place on pu
                 return
         # an identical play request repeated during the sync wait replaced a RunningShow that was itself armed for
         # the same sync point: it may still run the start step there before it is stopped (same instant, same step)
-        if inst.dup_start > 0 and inst.start_t == t and x == inst.start_label and inst.ticks == 1:
+        # (only if such a replaced show really executed a step - otherwise, e.g. for a one-step show catching up
+        # after a stall, a second identical event at the start instant is the show's own next loop)
+        if inst.dup_start > 0 and inst.start_t == t and x == inst.start_label and inst.ticks == 1 and \
+                sum(1 for o in inst.shadow_rs if o.current_step_index is not None) > inst.dup_used:
             inst.dup_start -= 1
+            inst.dup_used += 1
             ctx.probe("replay_double_start")
             return
         # replacement through the show_player with sync_ms: the old show stops when the new one starts
@@ -1417,9 +1423,11 @@ def execute(ctx, plan):     # noqa: C901  (one scenario, kept in one place on pu
                         raise AssertionError("context bookkeeping (replay): %s vs show_%d" % (rs2.context, nplays[0]))
                     cur.shadow.append(cur.ctx_key)
                     cur.ctx_key = rs2.context
+                    old_rs = cur.rs
                     cur.rs = rs2
                     if cur.status == "sync":
                         cur.dup_start += 1
+                        cur.shadow_rs.append(old_rs)
                 close_open_keep_opt(cur)
             elif cur is not None:
                 if op["op"] == "play":
